@@ -103,6 +103,10 @@ class LLDPSender (object):
     self._set_timer()
 
   def _handle_openflow_ConnectionDown (self, event):
+    if core.openflow.getConnection(event.dpid) not in (None, event.connection):
+      # The switch reconnected before this (stale) connection was closed --
+      # keep probing the ports of its live connection
+      return
     self.del_switch(event.dpid)
 
   def del_switch (self, dpid, set_timer = True):
@@ -320,6 +324,9 @@ class Discovery (EventMixin):
       self.install_flow(event.connection)
 
   def _handle_openflow_ConnectionDown (self, event):
+    if core.openflow.getConnection(event.dpid) not in (None, event.connection):
+      # Stale connection of a switch that has already reconnected
+      return
     # Delete all links on this switch
     self._delete_links([link for link in self.adjacency
                         if link.dpid1 == event.dpid
